@@ -192,6 +192,12 @@ impl C06 {
             (_, Tier::Quick) => (n * n / 16, 3_000, 3_000, 1_000),
             (_, Tier::Thorough) => (n * n / 2, 100_000, 50_000, 10_000),
         };
+        let chains = match (ctx.flavour, ctx.tier) {
+            (Flavour::Rel, Tier::Quick) => 30_000,
+            (Flavour::Rel, Tier::Thorough) => 2_000_000,
+            (_, Tier::Quick) => 3_000,
+            (_, Tier::Thorough) => 100_000,
+        };
         Families::new(vec![
             ("int-lattice", lat),
             ("int-random", rnd),
@@ -200,6 +206,7 @@ impl C06 {
             ("string-pool", (self.strings.len() * self.strings.len()) as u64),
             ("string-random", srnd),
             ("cross-type", 49),
+            ("int-chains", chains),
         ])
     }
 
@@ -457,6 +464,106 @@ impl Check for C06 {
                         st.sample(&p2);
                     }
                 }
+            }
+            "int-chains" => {
+                // every application in a chain of operators is exact and reports its own overflow: `x + 1 - 1` at the
+                // upper end of the range is an error although the sum of the constants is zero. Terms: one variable (at
+                // any position) among integer literals; operators with their precedence (* / % bind tighter than + -),
+                // optionally one comparison at the end. The expectation is computed with 128-bit arithmetic, one
+                // application at a time.
+                let ends = [MAX_INT, MAX_INT - 1, MAX_INT - 2, MIN_INT, MIN_INT + 1, MIN_INT + 2, 0, 1, -1, 2, -2];
+                let x = match r.below(4) {
+                    0 | 1 => ends[r.below(ends.len() as u64) as usize],
+                    2 => self.lattice[r.below(self.lattice.len() as u64) as usize],
+                    _ => random_int61(&mut r),
+                };
+                let nterms = 3 + r.below(3) as usize; // 3..5 terms
+                let pos = if r.chance(2, 3) { 0 } else { r.below(nterms as u64) as usize };
+                let mut lits: Vec<i64> = vec![];
+                for _ in 0..nterms {
+                    lits.push(match r.below(8) {
+                        0 | 1 | 2 => [1, 1, 2, 3, 7, 10][r.below(6) as usize],
+                        3 => r.range(0, 20),
+                        4 => [MAX_INT, MAX_INT - 1, 1 << 59, (1 << 59) + 1, 1 << 30][r.below(5) as usize],
+                        5 => -[1, 2, 7][r.below(3) as usize],
+                        6 => 0,
+                        _ => (x as i128 + r.range(-2, 2) as i128).clamp(0, MAX_INT as i128) as i64,
+                    });
+                }
+                let mut ops: Vec<&str> = vec![];
+                for _ in 0..nterms - 1 {
+                    ops.push(match r.below(10) {
+                        0..=3 => "+",
+                        4..=7 => "-",
+                        8 => "*",
+                        _ => ["/", "%"][r.below(2) as usize],
+                    });
+                }
+                let cmp: Option<(&str, i64)> = if r.chance(1, 4) { Some((["<", "<=", ">", ">=", "==", "!="][r.below(6) as usize], lits[0])) } else { None };
+                // expectation: products first, then sums, each application checked against the range
+                let vals: Vec<i128> = (0..nterms).map(|k| if k == pos { x as i128 } else { lits[k] as i128 }).collect();
+                let in_range = |v: i128| v >= MIN_INT as i128 && v <= MAX_INT as i128;
+                let mut err = false;
+                let mut sum_terms: Vec<i128> = vec![vals[0]];
+                let mut sum_ops: Vec<&str> = vec![];
+                for (k, op) in ops.iter().enumerate() {
+                    let rhs = vals[k + 1];
+                    match *op {
+                        "*" | "/" | "%" => {
+                            let l = *sum_terms.last().unwrap();
+                            let v = match *op {
+                                "*" => Some(l * rhs),
+                                "/" => if rhs == 0 { None } else { Some(l / rhs) },
+                                _ => if rhs == 0 { None } else { Some(l % rhs) },
+                            };
+                            match v {
+                                Some(v) if in_range(v) => *sum_terms.last_mut().unwrap() = v,
+                                _ => { err = true; break; }
+                            }
+                        }
+                        _ => { sum_terms.push(rhs); sum_ops.push(op); }
+                    }
+                }
+                let mut acc = sum_terms[0];
+                if !err {
+                    for (k, op) in sum_ops.iter().enumerate() {
+                        acc = if *op == "+" { acc + sum_terms[k + 1] } else { acc - sum_terms[k + 1] };
+                        if !in_range(acc) { err = true; break; }
+                    }
+                }
+                let expect = if err {
+                    Expect::AnyErr
+                } else {
+                    match cmp {
+                        None => Expect::Exact(Val::Int(acc as i64)),
+                        Some((c, k)) => {
+                            let k = k as i128;
+                            Expect::Exact(Val::Bool(match c { "<" => acc < k, "<=" => acc <= k, ">" => acc > k, ">=" => acc >= k, "==" => acc == k, _ => acc != k }))
+                        }
+                    }
+                };
+                let chain = |var: &str| -> String {
+                    let mut t = String::new();
+                    for k in 0..nterms {
+                        if k > 0 { t.push_str(&format!(" {} ", ops[k - 1])); }
+                        if k == pos { t.push_str(var) } else { t.push_str(&int_lit(lits[k])) }
+                    }
+                    if let Some((c, k)) = cmp { t.push_str(&format!(" {} {}", c, int_lit(k))); }
+                    t
+                };
+                let opsig = format!("{}-terms", nterms);
+                st.distinct_hash(hash_str(&format!("c {} {}", x, chain("x"))));
+                st.count(&format!("chain-terms:{}", nterms));
+                st.count(if err { "chain:expect-error" } else { "chain:expect-value" });
+                if i % 2003 == 0 {
+                    st.sample(&format!("functie f(x) {{ {} }} f({})", chain("x"), int_lit(x)));
+                }
+                let lx = int_lit(x);
+                self.check_one(&format!("functie f(x) {{ {} }} f({})", chain("x"), lx), &expect, name, &opsig, "parameter", st);
+                self.check_one(&format!("functie f() {{ stel x = {}; {} }} f()", lx, chain("x")), &expect, name, &opsig, "local", st);
+                self.check_one(&format!("stel x = {}; {}", lx, chain("x")), &expect, name, &opsig, "global", st);
+                self.check_one(&chain(&format!("({})", lx)), &expect, name, &opsig, "literals", st);
+                self.check_one(&format!("functie f(x) {{ stel r = {}; r }} f({})", chain("x"), lx), &expect, name, &opsig, "parameter-into-local", st);
             }
             _ => unreachable!(),
         }
